@@ -561,6 +561,16 @@ def corrupt(m, form, n):
         m.fractions.pop()
     elif form == "missing_orientations":
         m.orientations.pop()
+    elif form in ("last_fractions_size1", "last_orientations_size1", "last_orientations_single_matrix"):
+        # a later snapshot of a size that BROADCASTS against the grain count (seed C17h)
+        if s < 2 or n < 2:
+            return False
+        if form == "last_fractions_size1":
+            m.fractions[-1] = m.fractions[-1][:1].copy()
+        elif form == "last_orientations_size1":
+            m.orientations[-1] = m.orientations[-1][:1].copy()
+        else:
+            m.orientations[-1] = m.orientations[-1][0].copy()
     elif form.startswith("n_grains_attr"):
         m.n_grains = n + d
     elif form.startswith("first_fractions"):
@@ -587,6 +597,7 @@ CORRUPT = [
     "extra_fractions", "extra_orientations", "missing_fractions", "missing_orientations",
     "n_grains_attr+", "n_grains_attr-", "first_fractions+", "first_orientations+", "all_arrays+", "all_arrays-",
     "last_fractions+", "last_orientations+", "first_fractions-", "first_orientations-",
+    "last_fractions_size1", "last_orientations_size1", "last_orientations_single_matrix",
 ]
 CONTEXTS = ["empty_whole", "empty_postfix", "existing_archive_postfix", "existing_whole_overwrite", "missing_parent_dir"]
 BAD_NAMES = ["m.npy", "m.zip", "m", "m.npz.bak", "m.txt", "mnpz", "m.npz~", "m.np"]
